@@ -258,6 +258,14 @@ template<int N, class T> void square_query_ops() {
     { M<N, N, T> m(T(0)); static const int PL[3][5] = { {3, 4, 0, 0, 5}, {1, 2, 2, 0, 3}, {2, 4, 5, 6, 9} }; const int* pl = PL[N - 2];
       for (int c = 0; c < N; ++c) for (int r = 0; r < N; ++r) m[c][r] = T(((c + r) % 2 ? -1 : 1) * pl[(r + c) % N]);
       T len = T(pl[4]); q_square<N, T>(m, len); q_square<N, T>(m, next_dn(len)); q_square<N, T>(m, next_up(len)); q_square<N, T>(m, len * T(2)); q_square<N, T>(m, len / T(2)); }
+    // one column / row different from all the others: every column and every row has to be looked at
+    for (int k = 0; k < N; ++k) {
+        M<N, N, T> z(T(0)); for (int c = 0; c < N; ++c) z[c][c] = T(0); z[k][(k + 1) % N] = T(3); q_square<N, T>(z, T(1)); q_square<N, T>(z, T(3));           // only column k is not null
+        M<N, N, T> g(T(0)); for (int c = 0; c < N; ++c) g[c][c] = T(c == k ? 4 : 1); q_square<N, T>(g, T(1)); q_square<N, T>(g, T(2)); q_square<N, T>(g, T(4));      // column lengths 1 .. 4 .. 1
+        M<N, N, T> id(T(1)); id[k][k] = T(1.5); q_square<N, T>(id, dy<T>(1, -3)); q_square<N, T>(id, dy<T>(1, -2)); q_square<N, T>(id, next_dn(dy<T>(1, -2)));   // | 1.5 - 1 | against 2 e = 1/4, 1/2 (the tie), just below
+        M<N, N, T> eq(T(0)); for (int c = 0; c < N; ++c) { eq[c][c] = T(0); eq[c][k] = T(1); }                                                                 // every column is e_k: unit columns, rows of length sqrt N and 0
+        q_square<N, T>(eq, dy<T>(1, -4)); M<N, N, T> eqt = glm::transpose(eq); q_square<N, T>(eqt, dy<T>(1, -4));
+    }
     // Pythagorean rotations (products of plane rotations), orthonormal to a few eps: thresholds far above, around and below the rounding level
     for (int s = 0; s < every(5, 30); ++s) {
         PY const& py = PYS[s % 10]; int i = s % N, j = (s / 2 + 1 + i) % N; if (i == j) j = (j + 1) % N;
